@@ -247,7 +247,12 @@ func c01(c *core.Ctx) {
 	c.Family("sessions", c.N(36*30, 36*20000), c01Session)
 	c.Require("sessions")
 	c.Family("nokey", c.N(8000, 2000000), func(k *core.Case) {
-		c01NoKey(k, gen.Msg(k.R, gen.Opt{AllowBig: k.Index%9 == 0, AllowEmpty: true}))
+		m := gen.Msg(k.R, gen.Opt{AllowBig: k.Index%9 == 0, AllowEmpty: true})
+		if k.Index%4 == 1 && len(m.Payloads) > 0 {
+			// a datagram whose FIRST payload is not SK but whose last one is: still "handled as plain decode"
+			m.Payloads = append(m.Payloads, abs.Payload{Kind: abs.PSK, SK: &abs.SK{Next: uint8(k.R.Pick(0, 33, 41)), Data: gen.DataN(k.R, k.R.Pick(1, 16, 48, 60))}})
+		}
+		c01NoKey(k, m)
 	})
 }
 
